@@ -14,8 +14,8 @@ def classify(line):
 
 
 CFG = dict(
-    imports=["From Verif.Common Require Import Prefix.", "From Verif.C39 Require Import Model Spec.", "Open Scope N_scope."],
-    checker="check_case",
+    imports=["From Verif.Common Require Import Prefix.", "From Verif.C39 Require Import Model Spec Conditions Cases.", "Open Scope N_scope."],
+    checker="check_xcase",
     n=dict(quick=200, thorough=8000),
     shard=25,
     deps=["C36"],
